@@ -223,15 +223,19 @@ def ends_differ(p, bb, c0):
     first, last = set(), set()
     for c in conds_before(p, bb):
         q = inequality_fact(c)
-        if q is None or q[2]:
-            continue
-        for a, b in ((q[0], q[1]), (q[1], q[0])):
+        for a, b in (((q[0], q[1]), (q[1], q[0])) if q is not None and not q[2] else ()):
             if isinstance(a, tuple) and a and a[0] == "index" and _lib.coll(a[1]) == c0 and const_of(b) is not None:
                 ix = strip_refs(a[2])
                 if const_int(ix) == 0:
                     first.add(const_of(b))
                 elif isinstance(ix, tuple) and ix[0] == "binop" and ix[1] == "Sub" and const_int(ix[3]) == 1 and length_of(ix[2]) is not None and length_of(ix[2]) == c0:
                     last.add(const_of(b))
+        # the same two facts spelled c0.starts_with(b"A") / c0.ends_with(b"B") with one-byte literals
+        t = c.term
+        if is_call(t, "[T]>::starts_with", "[T]>::ends_with") and len(call_args(t)) == 2 and c.fact == ("eq", True) and _lib.coll(call_args(t)[0]) == c0:
+            lit = const_bytes(call_args(t)[1])
+            if lit is not None and len(lit) == 1:
+                (first if is_call(t, "[T]>::starts_with") else last).add(ord(lit))
     return bool(first) and bool(last) and not (first & last)
 
 
